@@ -70,6 +70,18 @@ CHECKS["C08"] = (
     "Parts are trusted here (C01/C02 judge them); multiscale grid bounded by extents <= 9 (1-D), <= 5x5, <= 6x3x3 (6x4x4 thorough), <= 4 stages.",
     "DESIGN.md section 3 C08")
 
+CHECKS["C10"] = (
+    "lock-step twin monitor over call histories: an uncached fresh instance synchronised through load_state_dict performs every "
+    "value-returning call next to the real cached object; histories = exhaustive short ones + random long ones + a transition "
+    "tour (every reachable abstract cache state x every operation, followed by observing suffixes)",
+    "After every forward / inverse / forward+backward-twice / deepcopy step of a history over {train, eval, use_cache, forward, "
+    "inverse, training step, load_state_dict, .double()/.float()} the cached object's outputs, log-dets and input gradients "
+    "are compared with an uncached twin holding the same parameters; exceptions the twin does not raise are violations. "
+    "Abstract states and transitions actually visited are reported.",
+    "The twin (same class/arguments, using_cache=False) is taken as the specification; parameter updates happen in training mode as "
+    "the property states; feature counts 1-4; float32 default world with float64 round trips.",
+    "DESIGN.md section 3 C10")
+
 PENDING_REASON = "check not built yet in this session (planned, see DESIGN.md section 3); not claimed until it exists and is calibrated"
 
 
